@@ -1,4 +1,239 @@
-//! Product of two arenas on one thread (C20). Filled in below.
-use crate::{engine::{Limits, Outcome}, ops::Op, scopes::Probes};
-pub fn explore_product(_scope: &str, _prop: &str, _probes: &Probes, _lim: &Limits) -> Outcome { unimplemented!() }
-pub fn replay_product(_scope: &str, _ops: &[Op], _probes: &Probes, _probe: Option<i64>) -> String { unimplemented!() }
+//! Product of two real arenas living on one thread (C20).
+//!
+//! State = pair of canonical forms. Every operation acts on one arena; the oracle is
+//! non-interference on the *other* arena's observations (canonical bookkeeping incl. colours,
+//! drop log, Gc count, debt bits, phase, handle validity) plus each arena's own oracles and probes.
+
+use gc_arena::metrics::Pacing;
+
+use crate::{
+    VResult, Viol,
+    engine::{Limits, Outcome, Sys, explore, run_history, run_history_full},
+    ops::{K, Op},
+    scopes::{Probes, Scope, scope},
+    viol,
+    wops::guarded,
+    world::{Cov, World, drops_from},
+};
+
+pub fn pair(name: &str) -> (Scope, Scope) {
+    let (a, b) = match name {
+        "P11" => ("P1", "P1"),
+        "P21" => ("P2", "P1"),
+        "P22" => ("P2", "P2"),
+        _ => panic!("unknown product scope {name}"),
+    };
+    (scope(a).unwrap(), scope(b).unwrap())
+}
+
+pub struct Product {
+    pub w: [World; 2],
+}
+
+#[derive(PartialEq, Debug)]
+struct Obs {
+    canon: Vec<u8>,
+    drops: Vec<u32>,
+    count: usize,
+    debt: u64,
+    phase: Option<u8>,
+    handles: Vec<bool>,
+}
+
+impl Product {
+    fn observe(&self, i: usize) -> Obs {
+        let w = &self.w[i];
+        let mut canon = vec![];
+        w.canon(&mut canon);
+        let lo = w.base;
+        Obs {
+            canon,
+            drops: drops_from(0).into_iter().filter(|d| *d >= lo && *d < lo + 128).collect(),
+            count: w.metrics.total_gc_count(),
+            debt: w.metrics.allocation_debt().to_bits(),
+            phase: w.arena.as_ref().map(|a| crate::world::ph(a.collection_phase())),
+            handles: w.hs.iter().map(|h| h.is_some()).collect(),
+        }
+    }
+
+    /// Present every live handle of arena `i` to the set of arena `1 - i` (if alive): refused.
+    fn present_foreign(&self, i: usize) -> VResult {
+        let (me, other) = (&self.w[i], &self.w[1 - i]);
+        let Some(oa) = other.arena.as_ref() else { return Ok(()) };
+        if other.sc.sets == 0 {
+            return Ok(());
+        }
+        for (hi, h) in me.hs.iter().enumerate() {
+            let Some(h) = h else { continue };
+            let r = guarded("presentation of a foreign handle", || {
+                oa.mutate(|_, root| -> VResult {
+                    let s = root.sets[0].unwrap();
+                    if s.contains(h) || s.try_fetch(h).is_ok() {
+                        viol!("c20.foreign_handle_accepted", "arena {} accepted handle {hi} issued by arena {i}", 1 - i);
+                    }
+                    let p = std::panic::catch_unwind(std::panic::AssertUnwindSafe(|| {
+                        let _ = s.fetch(h);
+                    }));
+                    if p.is_ok() {
+                        viol!("c20.foreign_handle_accepted", "fetch of handle {hi} of arena {i} on arena {} did not panic", 1 - i);
+                    }
+                    Ok(())
+                })
+            })?;
+            if let crate::wops::Caught::Done(r) = r {
+                r?;
+            }
+        }
+        Ok(())
+    }
+}
+
+impl Sys for Product {
+    fn create(sc: &Scope) -> Self {
+        let (a, b) = pair(sc.name);
+        let wa = World::new(a, 0);
+        let wb = World::new(b, 128);
+        wb.metrics.set_pacing(Pacing { sleep_factor: 0.0, min_sleep: 0, mark_factor: 0.3, trace_factor: 0.3, keep_factor: 0.3, drop_factor: 0.45, free_factor: 0.45 });
+        Product { w: [wa, wb] }
+    }
+    fn enabled(&self) -> Vec<Op> {
+        let mut ops = vec![];
+        for i in 0..2 {
+            for op in self.w[i].enabled() {
+                ops.push(op.on(i as u8));
+            }
+            if self.w[i].arena.is_some() {
+                ops.push(Op::n0(K::DropArena).on(i as u8));
+            } else {
+                for (hi, h) in self.w[i].sh.handles.iter().enumerate() {
+                    if h.is_some() {
+                        ops.push(Op::n1(K::DropH, hi as u8).on(i as u8));
+                    }
+                }
+            }
+        }
+        ops
+    }
+    fn apply(&mut self, op: Op) -> VResult {
+        let i = op.w as usize;
+        let verify = self.w[i].verify;
+        let before = if verify { Some(self.observe(1 - i)) } else { None };
+        let mut local = op;
+        local.w = 0;
+        match op.k {
+            K::DropArena => {
+                let w = &mut self.w[i];
+                let arena = w.arena.take();
+                guarded("drop(Arena)", move || drop(arena))?;
+                w.sync_logs()?;
+                for (k, o) in w.sh.objs.iter().enumerate() {
+                    if !o.dropped || !o.freed {
+                        viol!("c04.not_destructed", "arena {i} dropped: object {k} destructed={} released={}", o.dropped, o.freed);
+                    }
+                }
+                if w.metrics.total_gc_count() != 0 {
+                    viol!("c04.count_after_drop", "arena {i}: total_gc_count() = {} after drop", w.metrics.total_gc_count());
+                }
+            }
+            K::DropH if self.w[i].arena.is_none() => {
+                let h = self.w[i].hs[op.a as usize].take();
+                guarded("DynamicRoot::drop after arena death", move || drop(h))?;
+                self.w[i].sh.handles[op.a as usize] = None;
+            }
+            _ => self.w[i].apply(local)?,
+        }
+        if let Some(before) = before {
+            let after = self.observe(1 - i);
+            if before != after {
+                let what = if before.canon != after.canon {
+                    "collector bookkeeping / colours / list"
+                } else if before.drops != after.drops {
+                    "destructors run"
+                } else if before.count != after.count {
+                    "Gc count"
+                } else if before.debt != after.debt {
+                    "allocation debt"
+                } else if before.phase != after.phase {
+                    "phase"
+                } else {
+                    "handles"
+                };
+                viol!("c20.interference", "operation {op:?} on arena {i} changed arena {}: {what}", 1 - i);
+            }
+            // the other arena's own oracles still hold
+            if self.w[1 - i].arena.is_some() {
+                self.w[1 - i].check()?;
+            }
+            self.present_foreign(i)?;
+            self.present_foreign(1 - i)?;
+        }
+        Ok(())
+    }
+    fn canon(&self, out: &mut Vec<u8>) {
+        self.w[0].canon(out);
+        out.push(0xFD);
+        self.w[1].canon(out);
+    }
+    fn set_verify(&mut self, v: bool) {
+        self.w[0].verify = v;
+        self.w[1].verify = v;
+    }
+    fn finish(self) -> VResult {
+        let [a, b] = self.w;
+        a.finish()?;
+        b.finish()
+    }
+    fn take_cov(&mut self) -> Cov {
+        let mut c = std::mem::take(&mut self.w[0].cov);
+        c.merge(&std::mem::take(&mut self.w[1].cov));
+        c
+    }
+    fn probe_count(&self, p: &Probes) -> usize {
+        let per = p.c02 as usize + p.c04 as usize;
+        2 * per
+    }
+    fn probe(self, p: &Probes, i: usize) -> VResult {
+        let per = p.c02 as usize + p.c04 as usize;
+        let which = i / per;
+        let kind = i % per;
+        let before = self.observe(1 - which);
+        let [a, b] = self.w;
+        let (me, other) = if which == 0 { (a, b) } else { (b, a) };
+        if me.arena.is_none() {
+            me.finish()?;
+            return other.finish();
+        }
+        let c02 = p.c02 && kind == 0;
+        if c02 {
+            me.probe_c02()?;
+        } else {
+            me.probe_c04()?;
+        }
+        // rebuild a product view of the other arena for the comparison
+        let mut canon = vec![];
+        other.canon(&mut canon);
+        if canon != before.canon || other.metrics.total_gc_count() != before.count || other.metrics.allocation_debt().to_bits() != before.debt {
+            return Err(Viol::new("c20.interference", format!("a {} probe on arena {which} changed arena {}", if c02 { "2x finish_cycle" } else { "drop" }, 1 - which)));
+        }
+        other.finish()
+    }
+}
+
+pub fn explore_product(scope_name: &str, prop: &str, probes: &Probes, lim: &Limits) -> Outcome {
+    let sc = Scope { name: Box::leak(scope_name.to_string().into_boxed_str()), ..scope("P1").unwrap() };
+    explore::<Product>(&sc, prop, probes, lim)
+}
+
+pub fn replay_product(scope_name: &str, ops: &[Op], probes: &Probes, probe: Option<i64>) -> String {
+    let sc = Scope { name: Box::leak(scope_name.to_string().into_boxed_str()), ..scope("P1").unwrap() };
+    match run_history_full::<Product>(&sc, ops) {
+        Err((i, v)) => format!("VIOLATED at step {i} ({:?}): {} — {}", ops.get(i), v.oracle, v.msg),
+        Ok(h) => {
+            let (_, pv) = run_history::<Product>(&sc, ops, probes);
+            match pv.iter().find(|(i, _)| probe.map(|p| p as usize == *i).unwrap_or(true)) {
+                Some((i, v)) => format!("VIOLATED in probe {i}: {} — {}", v.oracle, v.msg),
+                None => format!("holds (final state hash {h:032x})"),
+            }
+        }
+    }
+}
